@@ -85,6 +85,17 @@ static void case_pins(const Args &a, long idx, bool wantDesc, CaseResult &res) {
                 D.i(p.cls); D.d(p.xo); D.d(p.yo); D.i(p.prop); D.d(p.inside); D.i(p.dirs); D.i(p.exclusive); D.d(p.cost);
             }
         }
+        // often add an aligned pair in a class of its own: an all-directions centre pin plus a one-direction pin on the middle of a side,
+        // both on one visibility line (the configuration in which a directional pin could borrow its neighbour's visibility)
+        if (orth && R.coin(0.35)) {
+            unsigned c = (unsigned)ncls + 1; int side = (int)R.ri(0, 3); double ins = R.coin(0.5) ? 0 : (double)R.ri(1, 2);
+            PinSpec a; a.cls = c; a.prop = true; a.xo = 0.5; a.yo = 0.5; a.inside = 0; a.dirs = Avoid::ConnDirAll; a.exclusive = -1; a.cost = 0;
+            PinSpec b = a; b.xo = side == 0 ? 0 : side == 1 ? 1 : 0.5; b.yo = side == 2 ? 0 : side == 3 ? 1 : 0.5; b.inside = ins; b.dirs = side == 0 ? Avoid::ConnDirLeft : side == 1 ? Avoid::ConnDirRight : side == 2 ? Avoid::ConnDirUp : Avoid::ConnDirDown;
+            if (R.coin(0.5)) std::swap(a, b);
+            for (PinSpec *p : {&a, &b}) { p->ref = new Avoid::ShapeConnectionPin(s.ref, p->cls, p->xo, p->yo, p->prop, p->inside, (Avoid::ConnDirFlags)p->dirs); if (p->dirs == Avoid::ConnDirAll) { p->exclusive = 1; p->ref->setExclusive(true); } s.pins.push_back(*p);
+                pj.raw(JObj().i("class", p->cls).num("xOffset", p->xo).num("yOffset", p->yo).b("proportional", p->prop).num("insideOffset", p->inside).i("visDirs", p->dirs).i("exclusive(-1=default)", p->exclusive).num("cost", p->cost).done()); D.i(p->cls); D.d(p->xo); D.d(p->yo); D.d(p->inside); D.i(p->dirs); }
+            res.count("aligned_centre_plus_side_pin_pairs");
+        }
         shapes.push_back(s);
         hist.raw(JObj().str("op", "addShape").i("id", (long)shapes.size() - 1).raw("rect_x0_y0_x1_y1", JArr().i(x0).i(y0).i(x0 + w).i(y0 + h).done()).raw("pins", pj.done()).done());
         D.i(x0); D.i(y0); D.i(w); D.i(h);
